@@ -403,9 +403,16 @@ impl Buffer {
     ///
     /// This function will return an error if .
     pub fn update_sixel_threads(&mut self) -> EngineResult<bool> {
+        self.collect_sixel_threads(usize::MAX)
+    }
+
+    /// Puts the images of finished decodes on the screen, in arrival order. Never waits for a running decode
+    /// unless more than `max_pending` decodes are queued: then the oldest ones are waited for. Every decode is
+    /// a thread whose handle (stack, result) lives until it is collected here, the parser bounds their number with it.
+    pub(crate) fn collect_sixel_threads(&mut self, max_pending: usize) -> EngineResult<bool> {
         let mut updated_sixel = false;
         while let Some(handle) = self.sixel_threads.front() {
-            if !handle.is_finished() {
+            if !handle.is_finished() && self.sixel_threads.len() <= max_pending {
                 // sixels delivered earlier in this call must still be reported
                 break;
             }
